@@ -39,6 +39,8 @@ def pick_len(r):
     k = r.random()
     if k < 0.10:
         return r.choice([0, 1, 17, 300])
+    if k < 0.28:
+        return r.choice([9000, 9000, 12168, 20000])   # a few exact sizes: several entries then have identical slot layouts
     if k < 0.45:
         return r.randrange(0, 3700)                  # single slot
     if k < 0.80:
@@ -134,7 +136,7 @@ class Image:
 
 
 # number of value variants per mutation kind: the first mutation of the cases walks through all (kind, variant) pairs
-VARIANTS = {"next_self": 1, "next_cycle": 1, "next_cross": 1, "next_dangling": 7, "next_cut": 1, "first_change": 11,
+VARIANTS = {"next_self": 1, "next_cycle": 1, "next_cross": 2, "next_dangling": 7, "next_cut": 1, "first_change": 11,
             "dup_to_free": 3, "dup_over": 2, "zero_slot": 1, "zero_header": 1, "zero_payload": 3, "garbage_header": 1,
             "garbage_slot": 1, "entry_size": 9, "payload_size": 9, "version": 5, "key_cross": 2, "key_random": 1,
             "swap_slots": 1, "truncate": 6, "db_header": 4, "meta_flip": 1, "meta_size": 16, "meta_flags": 4}
@@ -171,6 +173,21 @@ def mutate(img, kind, variant, mseed, chains, free):
         img.set_cell(s, nextSlot=ch["order"][r.randrange(0, i + 1)])
         return {s}
     if kind == "next_cross":
+        if pick([False, True]):
+            # splice the tail of another entry whose remaining payload sizes are exactly those of our own tail: the
+            # thief's slot sizes still add up to its entry size, only slot ownership (finalized/claimed) can tell
+            pairs = []
+            for a_ in multi:
+                for b_ in multi:
+                    if a_ is b_ or len(a_["order"]) != len(b_["order"]) or set(a_["order"]) != set(a_["slots"]) or set(b_["order"]) != set(b_["slots"]):
+                        continue
+                    if [img.cell(x)[3] for x in a_["order"]] == [img.cell(x)[3] for x in b_["order"]] and img.cell(a_["order"][0])[2] == img.cell(b_["order"][0])[2]:
+                        pairs.append((a_, b_))
+            if pairs:
+                a_, b_ = r.choice(pairs)
+                i = r.randrange(0, len(a_["order"]) - 1)
+                img.set_cell(a_["order"][i], nextSlot=b_["order"][i + 1])
+                return {a_["order"][i]}
         img.set_cell(s, nextSlot=t)
         return {s}
     if kind == "next_dangling":
